@@ -125,7 +125,7 @@ var chartLine = regexp.MustCompile(`(?m)^([a-z]+):$`)
 func corrSchema(seed uint64, n int, tier string, out string, replay string) {
 	m := StartModel()
 	defer m.Close()
-	rep := NewReport("C14", "schema", seed, "case = chart tree (root + up to two levels of subcharts) with schemas from a generated family (type, required, enum, integer bounds, nested properties, additionalProperties:false) at any level, defaults and user values (given as a map or through --set) landing at any level; (a) single schema vs value: santhosh-tekuri verdict vs the Lean evaluator; (b) ValidateAgainstSchema on the coalesced values: the chart names in the error vs the model; (c) the gate in ToRenderValuesWithSchemaValidation with and without skip, a client-only dry-run install and an install against a recording store (nothing stored on rejection), and lint; non-trivial = at least one schema present; distinct = hash of chart tree and values")
+	rep := NewReport("C14", "schema", seed, "case = chart tree (root + up to two levels of subcharts) with schemas from a generated family (type, required, enum, integer bounds, nested properties, additionalProperties:false) at any level, defaults and user values (given as a map or through --set) landing at any level; (a) single schema vs value: santhosh-tekuri verdict vs the Lean evaluator; (b) ValidateAgainstSchema on the coalesced values: the chart names in the error vs the model; (c) the gate in ToRenderValuesWithSchemaValidation with and without skip, a client-only dry-run install and an install against a recording store (nothing stored on rejection), lint, and (every third case) an upgrade over the simulated API server from a schema-less edition of the chart with the values arriving by carry-over / --reuse-values / --reset-then-reuse-values / --reset-values / given again: an accepted upgrade's recorded chart and config satisfy the schemas, a rejected one stores and sends nothing; non-trivial = at least one schema present; distinct = hash of chart tree and values")
 	tmp, _ := os.MkdirTemp("", "corr-schema")
 	defer os.RemoveAll(tmp)
 	for i := 0; i < n; i++ {
@@ -223,6 +223,10 @@ func schemaTreeCase(m *Model, rep *Report, r *Rng, tmp string, g *genSChart, use
 	}
 	if rs, _ := mem.List(nil2true); len(rs) > 0 {
 		rep.Issue(Issue{Kind: "monitor", Fingerprint: "C14:stored", What: "a dry-run install wrote to release storage", Case: cs, Seed: seed, Index: idx})
+	}
+	// upgrade: from a schema-less edition of the same chart to this one, values arriving by every carry-over mode
+	if idx%3 == 1 {
+		schemaUpgradeCase(rep, NewRng(seed^0x14c, uint64(idx)), g, user, shouldFail, cs, seed, idx)
 	}
 	// --set arrival path: the same user values via strvals must give the same verdict (scalars only)
 	// lint
@@ -322,4 +326,86 @@ func withValuesRaw(c *chart.Chart) *chart.Chart {
 		withValuesRaw(d)
 	}
 	return c
+}
+
+func stripSchemas(c *chart.Chart) {
+	c.Schema = nil
+	for _, d := range c.Dependencies() {
+		stripSchemas(d)
+	}
+}
+
+// schemaUpgradeCase: install an edition of the chart without schemas (so that any values are accepted), then
+// upgrade to the chart with its schemas, the values arriving by one of the carry-over modes.  What an accepted
+// upgrade recorded must satisfy the schemas (validated on exactly the chart and config of the new revision); a
+// rejected one stores nothing and sends nothing; in the modes where the final values are the install's
+// (no flags, or the same values given again) the verdict is the one of the install path.
+func schemaUpgradeCase(rep *Report, r *Rng, g *genSChart, user map[string]any, shouldFail bool, cs map[string]any, seed uint64, idx int) {
+	w := newSimWorld(driver.NewMemory())
+	defer w.close()
+	old := g.real()
+	stripSchemas(old)
+	old.Metadata.Version = "0.0.9"
+	in := action.NewInstall(w.cfg())
+	in.ReleaseName, in.Namespace = "r", "default"
+	var ierr error
+	if p := safely(func() { _, ierr = in.Run(old, deepCopyMap(user)) }); p != "" || ierr != nil {
+		rep.H("upgrade:install-failed")
+		return
+	}
+	mode := Pick(r, []string{"carry", "carry", "reuse", "reset-then-reuse", "reset", "explicit"})
+	dry := r.Chance(20)
+	w.revive()
+	up := action.NewUpgrade(w.cfg())
+	up.Namespace = "default"
+	up.DryRun = dry
+	vals := map[string]any{}
+	switch mode {
+	case "reuse":
+		up.ReuseValues = true
+	case "reset-then-reuse":
+		up.ResetThenReuseValues = true
+	case "reset":
+		up.ResetValues = true
+	case "explicit":
+		vals = deepCopyMap(user)
+	}
+	w.api.mu.Lock()
+	t0 := len(w.api.trace)
+	w.api.mu.Unlock()
+	w0 := len(w.writes)
+	var rel *release.Release
+	var uerr error
+	if p := safely(func() { rel, uerr = up.Run("r", g.real(), vals) }); p != "" {
+		rep.Issue(Issue{Kind: "monitor", Fingerprint: "C20:panic:Upgrade.Run", What: p, Case: cs, Seed: seed, Index: idx})
+		return
+	}
+	schemaErr := uerr != nil && strings.Contains(uerr.Error(), "values don't meet the specifications of the schema")
+	rep.H("upgrade:" + mode + ":" + map[bool]string{true: "rejected", false: "accepted"}[schemaErr])
+	ucs := map[string]any{"chart": cs["chart"], "defaults": cs["defaults"], "user": user, "upgrade-mode": mode, "dry-run": dry}
+	w.api.mu.Lock()
+	sent := append([]string{}, w.api.trace[t0:]...)
+	w.api.mu.Unlock()
+	stored := append([]string{}, w.writes[w0:]...)
+	if uerr != nil && !schemaErr {
+		rep.H("upgrade:other-error")
+		return
+	}
+	if schemaErr || dry {
+		if len(sent) > 0 || len(stored) > 0 {
+			rep.Issue(Issue{Kind: "monitor", Fingerprint: "C14:upgrade-rejected-but-acted", What: fmt.Sprintf("an upgrade that was rejected by the schema (or was a dry run) sent %v and stored %v", sent, stored), Case: ucs, Seed: seed, Index: idx})
+		}
+	}
+	if (mode == "carry" || mode == "explicit") && schemaErr != shouldFail {
+		rep.Issue(Issue{Kind: "monitor", Fingerprint: "C14:upgrade-gate", What: fmt.Sprintf("upgrade (%s) schema error=%v but the schemas %s the same values on install", mode, schemaErr, map[bool]string{true: "reject", false: "accept"}[shouldFail]), Case: ucs, Impl: fmt.Sprint(uerr), Seed: seed, Index: idx})
+	}
+	if uerr == nil && rel != nil {
+		// what was accepted: validate exactly the chart and config of the new revision
+		fin, err := chartutil.CoalesceValues(rel.Chart, deepCopyMap(rel.Config))
+		if err == nil {
+			if verr := chartutil.ValidateAgainstSchema(rel.Chart, fin); verr != nil {
+				rep.Issue(Issue{Kind: "monitor", Fingerprint: "C14:upgrade-accepted-violating-values", What: fmt.Sprintf("upgrade (%s, dry-run=%v) was accepted although the values of the new revision violate the schemas: %v", mode, dry, trunc(verr.Error(), 300)), Case: ucs, Seed: seed, Index: idx})
+			}
+		}
+	}
 }
